@@ -3,7 +3,7 @@
 of /repo's CURRENT working tree with its sync / sync/atomic imports rewritten to the cooperative
 shims, plus the shim packages mapped as virtual directories of the elrond-vm-common module."""
 import json, os, re, sys, glob
-REPO='/repo'; VERIF=os.path.dirname(os.path.dirname(os.path.abspath(__file__))); WORK=os.path.join(VERIF,'.work','ov')
+REPO='/repo'; VERIF=os.path.dirname(os.path.dirname(os.path.abspath(__file__))); TAG=(sys.argv[1] if len(sys.argv)>1 else ''); WORK=os.path.join(VERIF,'.work','ov'+TAG)
 os.makedirs(WORK, exist_ok=True)
 MOD='github.com/ElrondNetwork/elrond-vm-common'
 rep={}
@@ -27,5 +27,5 @@ for d in ['container','atomic','builtInFunctions']:
 for pkg in ['vsched','vsync','vatomic']:
     for f in glob.glob(os.path.join(VERIF,'engine','sched',pkg,'*.go')):
         rep[os.path.join(REPO,pkg,os.path.basename(f))]=f
-json.dump({'Replace':rep}, open(os.path.join(VERIF,'.work','overlay.json'),'w'), indent=1)
+json.dump({'Replace':rep}, open(os.path.join(VERIF,'.work','overlay'+TAG+'.json'),'w'), indent=1)
 print(f'overlay: {n} library files rewritten')
